@@ -22,9 +22,9 @@ import (
 func init() {
 	core.Register(&core.Prop{
 		ID: "C06", Level: "exploration",
-		Rule: "cases are (state, message kind, header-defect vector, configuration): BeginString ok/other/garbage x SenderCompID and TargetCompID ok/wrong/swapped/missing/empty x SendingTime in/-far/+far/missing/empty/garbled/other precision x MsgSeqNum ok/low/high/missing/empty/garbled/negative x PossDup x kind {app, Heartbeat, TestRequest, ResendRequest, SequenceReset gap-fill/reset, Logout, Reject, Logon} x state {logon pending, in session, recovering, test request pending} x role x BeginString x CheckLatency/MaxLatency x validator {none, dictionary}; sampled; non-trivial = case with at least one defect; distinct by (state, kind, defect vector)",
+		Rule:        "cases are (state, message kind, header-defect vector, configuration): BeginString ok/other/garbage x SenderCompID and TargetCompID ok/wrong/swapped/missing/empty x SendingTime in/-far/+far/missing/empty/garbled/other precision x MsgSeqNum ok/low/high/missing/empty/garbled/negative x PossDup x kind {app, Heartbeat, TestRequest, ResendRequest, SequenceReset gap-fill/reset, Logout, Reject, Logon} x state {logon pending, in session, recovering, test request pending} x role x BeginString x CheckLatency/MaxLatency x validator {none, dictionary}; sampled; non-trivial = case with at least one defect; distinct by (state, kind, defect vector)",
 		Assumptions: []string{"SendingTime values are at least 60 s away from the acceptance edge (inside: |d|<=30 s of now; outside: |d|>=300 s with MaxLatency 120 s)", "an empty or garbled BeginString may be answered as wrong BeginString (Logout) or as an empty field (Reject)", "ResendRequest, Logout and SequenceReset-Reset are processed whatever their MsgSeqNum; sequence-field defects are judged only for kinds whose number is checked", "a negative MsgSeqNum is a number (too low)", "while a replay is in progress the SendingTime window is waived; presence/format of 52 is not judged there", "whether a plain Reject advances the expected number is not judged"},
-		FloorQuick: 200, FloorThorough: 2000,
+		FloorQuick:  200, FloorThorough: 2000,
 		Parts: []core.Part{{Name: "gate", Run: run, Replay: replay}},
 	})
 }
